@@ -149,7 +149,8 @@ def run(ck: Check):
     bad = ck.coq_eval("inj", HEADER, terms, "inj_case", "check_inj", shard=120)
     ck.run_fixed({"inject_across_short_lived_contexts": "C19:differs-from-explicit-lookup",
                   "overlapping_injected_calls": "C19:overlapping-calls-mixed-up",
-                  "caller_names_injected_parameter": "C19:arguments-changed"})
+                  "caller_names_injected_parameter": "C19:arguments-changed",
+                  "optional_injection_is_the_optional_lookup": "C19:differs-from-explicit-lookup"})
     sigs, n_fail = {}, 0
     for r in results:
         for sig, what in oracle(r):
